@@ -66,6 +66,17 @@ def cases(tier, seed, args):
         for i in range(4 if q else 24):
             out.append(dict(t='perm_mm', kind='gmm', L=[], K=2, D=2 + i % 2, N=60, wca=(-1,), iterations=[3, 5][i % 2],
                             seed=int(rng.integers(1 << 30)), sam=False, saliency=False, regime='badscale'))
+        # long runs on overlapping classes (EM slows down / plateaus within the budget), K >= 3
+        for i in range(6 if q else 36):
+            kind = ['cwmm', 'cacgmm', 'cwmm', 'gmm', 'cwmm', 'vmfmm'][i % 6]
+            out.append(dict(t='perm_mm', kind=kind, L=[], K=3 + (i // 6) % 2, D=3, N=int(rng.integers(45, 70)), wca=(-1,),
+                            iterations=[20, 10, 14][i % 3], seed=int(rng.integers(1 << 30)), sam=False, saliency=False,
+                            regime='overlap', spread=[0.5, 0.35, 0.7][(i // 2) % 3]))
+        # source-activity masks with observations where no class is active and TIED activity counts between classes
+        for i in range(4 if q else 24):
+            out.append(dict(t='perm_mm', kind='cacgmm', L=[2] if i % 2 else [], K=3 + i % 2, D=3, N=int(rng.integers(18, 30)), wca=(-1,),
+                            iterations=[2, 3, 5][i % 3], seed=int(rng.integers(1 << 30)), sam=True, sam_tie=True, saliency=False,
+                            regime='regular'))
     if prop == 'C06':
         for i in range(40 if q else 400):
             kind = ['cacgmm', 'cwmm', 'cbmm', 'gmm', 'vmfmm'][i % 5]
@@ -89,6 +100,16 @@ def cases(tier, seed, args):
                             D=int(rng.integers(2, 4)), N=int(rng.integers(8, 16)), seed=int(rng.integers(1 << 30)),
                             saliency=bool(i % 3 == 0), degenerate_slice=bool(i % 7 == 6)))
     if prop == 'C06':
+        # nearly tied slices (Bingham solver with a coarse duplicate threshold; also for the other trainers)
+        for i in range(4 if q else 24):
+            out.append(dict(t='stack_dist', dist=['bingham', 'bingham', 'watson', 'cacg'][i % 4], fn=['fit', 'log_pdf'][(i // 4) % 2],
+                            L=[int(rng.integers(2, 4))], D=int(rng.integers(2, 4)), N=int(rng.integers(8, 16)),
+                            seed=int(rng.integers(1 << 30)), saliency=bool(i % 3 == 0), degenerate_slice=False, near_dup=True))
+        # two genuine leading axes in Fortran-ordered buffers (C and Fortran order of the parameter arrays differ)
+        for i in range(8 if q else 32):
+            out.append(dict(t='stack_dist', dist=['gauss_spherical', 'gauss_diagonal', 'gauss_full', 'vmf'][i % 4], fn=['fit', 'log_pdf'][(i // 4) % 2],
+                            L=[[2, 3], [3, 2]][(i // 8) % 2], D=int(rng.integers(2, 4)), N=int(rng.integers(8, 16)),
+                            seed=int(rng.integers(1 << 30)), saliency=bool(i % 3 == 0), degenerate_slice=False, layout='F'))
         # stack_parameters: the stacked model indexed at i equals the i-th input model (and dict round trips)
         for i in range(8 if q else 40):
             out.append(dict(t='stack_params', kind=['cacgmm', 'cwmm', 'vmfmm'][i % 3], n=int(rng.integers(2, 4)),
@@ -225,7 +246,12 @@ def _perm_mm(case):
     rng = np.random.default_rng(case['seed'])
     kind, L, K, D, N = case['kind'], case['L'], case['K'], case['D'], case['N']
     regime = case['regime']
-    data = ml.make_data(rng, kind, L, K, D, N, regime='separable' if (regime != 'regular' and kind != 'cbmm') else 'regular')
+    data = ml.make_data(rng, kind, L, K, D, N, regime='separable' if (regime not in ('regular', 'overlap') and kind != 'cbmm') else 'regular')
+    if regime == 'overlap':
+        real = kind in ('gmm', 'vmfmm')
+        proto = rng.normal(size=(K, D)) + (0 if real else 1j * rng.normal(size=(K, D)))
+        labo = rng.integers(0, K, size=(*L, N))
+        data['y'] = proto[labo] + case.get('spread', 0.5) * (rng.normal(size=(*L, N, D)) + (0 if real else 1j * rng.normal(size=(*L, N, D))))
     if regime == 'badscale' and kind == 'gmm':
         # one tight and one broad cluster: large log-pdf gaps between classes
         lab = rng.integers(0, K, size=(*L, N))
@@ -247,6 +273,11 @@ def _perm_mm(case):
         sam = rng.random((*L, K, N)) < 0.8
         sam[..., 0] = True
         sam[..., 1] = False            # an observation where no class is active
+        if case.get('sam_tie'):
+            # two classes share the largest activity count (the others are switched off on a few more observations)
+            sam[..., :2, 2:] = True
+            sam[..., 2:, 2:6] = False
+            sam[..., 3] = False        # a second all-inactive observation
         opts['source_activity_mask'] = sam
     perms = list(itertools.permutations(range(K)))
     pi = list(perms[int(rng.integers(1, len(perms)))])
@@ -308,19 +339,25 @@ def _stack_mm(case):
         init_s = ml.make_init(rng, shp, K, N)
         init_arg = init_s
         init = np.broadcast_to(init_s, (*L, K, N))
-    ms, es = call(ml.fit, kind, data, init_arg, case['iterations'], opts)
+    data_s = data
+    if case['seed'] % 2 and not case.get('singleton_init'):
+        # the stacked call sees the same values in Fortran-ordered buffers (transposed views, loadmat output); the individual
+        # calls below get plain C-ordered slices
+        data_s = {k: np.asfortranarray(v) for k, v in data.items()}
+        init_arg = np.asfortranarray(init_arg)
+    ms, es = call(ml.fit, kind, data_s, init_arg, case['iterations'], opts)
     fp = f't=stack_mm;model={kind};lead={len(L)};cov={case["covariance_type"] if kind == "gmm" else ""};' \
-         f'singleton_init={bool(case.get("singleton_init"))}'
+         f'singleton_init={bool(case.get("singleton_init"))};layout={"F" if data_s is not data else "C"}'
     recs = []
     ps = None
     if ms is not None:
-        ps, _ = call(ml.predict, kind, ms, data)
+        ps, _ = call(ml.predict, kind, ms, data_s)
     idxs = list(np.ndindex(*L))
     rng.shuffle(idxs)
     first = tuple(0 for _ in L)
     idxs = [first] + [i for i in idxs if i != first]       # the special (degenerate / rank-deficient) slice is always compared
     for idx in idxs[:3]:
-        d1 = {k: v[idx] for k, v in data.items()}
+        d1 = {k: np.ascontiguousarray(v[idx]) for k, v in data.items()}
         m1, e1 = call(ml.fit, kind, d1, np.ascontiguousarray(init[idx]), case['iterations'], opts)
         key = f'stack:{case["seed"]}:{idx}'
         if m1 is None:
@@ -331,8 +368,19 @@ def _stack_mm(case):
         p1, _ = call(ml.predict, kind, m1, d1)
         A = ml.model_fields(kind, ms, posterior=ps)
         B = ml.model_fields(kind, m1, posterior=p1)
+        raw, amp, fine = None, None, 0
+        if ps is not None and p1 is not None:
+            # same arithmetic per slice: fine residuals; tolerance widened only by the measured rounding amplification of this
+            # slice (the same fit with data and initialisation moved by one ulp)
+            raw = (ml.model_arrays(kind, ms, posterior=ps), ml.model_arrays(kind, m1, posterior=p1))
+            dp = {k: ml.ulp_perturb(rng, v) for k, v in d1.items()}
+            mp_, _ = call(ml.fit, kind, dp, ml.ulp_perturb(rng, np.ascontiguousarray(init[idx])), case['iterations'], opts)
+            pp, _ = (None, '') if mp_ is None else call(ml.predict, kind, mp_, dp)
+            if pp is not None:
+                amp = ml.amp_of(raw[1], ml.model_arrays(kind, mp_, posterior=pp))
+                fine = -30
         recs.append(ml.twin_record('slice', A, B, kind=kind, lead=[int(i) for i in idx], fp=fp, key=key,
-                                   slack=2048 if kind == 'cbmm' else 256))
+                                   slack=2048 if kind == 'cbmm' else 256, fine=fine, raw=raw, amp=amp))
     return recs
 
 
@@ -344,11 +392,15 @@ def _stack_dist(case):
     y = y * rng.uniform(0.5, 2, size=(*L, 1, D)) + (rng.normal(size=(*L, 1, D)) if real else 0)
     if case.get('degenerate_slice') and dist == 'vmf':
         y[tuple(0 for _ in L)] = y[tuple(0 for _ in L)][:1]
+    if case.get('near_dup'):
+        # nearly (not exactly) tied slices: every slice is the first one moved by 1e-4 relative
+        base = y[tuple(0 for _ in L)].copy()
+        y = base + 1e-4 * y
     sal = rng.uniform(0.2, 2, size=(*L, N)) if case['saliency'] and dist != 'cacg' else None
     tr = dict(gauss_full=lambda: GaussianTrainer(), gauss_diagonal=lambda: GaussianTrainer(), gauss_spherical=lambda: GaussianTrainer(),
               cgauss=lambda: ComplexCircularSymmetricGaussianTrainer(), vmf=lambda: VonMisesFisherTrainer(),
               watson=lambda: ComplexWatsonTrainer(), cacg=lambda: ComplexAngularCentralGaussianTrainer(),
-              bingham=lambda: ComplexBinghamTrainer())[dist]
+              bingham=lambda: ComplexBinghamTrainer(**({'eignevalue_eps': 1e-3} if case.get('near_dup') else {})))[dist]
     kw = {}
     if dist.startswith('gauss'):
         kw['covariance_type'] = dist.split('_')[1]
@@ -364,28 +416,34 @@ def _stack_dist(case):
         if dist != 'cacg':
             k2['saliency'] = ss
         return tr().fit(yy, **k2)
-    fp = f't=stack_dist;dist={dist};fn={case["fn"]};lead={len(L)}'
-    ms, es = call(fit, y, sal)
+    lay = case.get('layout') or ('F' if case['seed'] % 2 else 'C')
+    fp = f't=stack_dist;dist={dist};fn={case["fn"]};lead={len(L)};layout={lay}'
+    # layout F: the stacked call sees the same values in Fortran-ordered buffers, the individual calls C-ordered slices
+    ms, es = call(fit, np.asfortranarray(y) if lay == 'F' else y, (np.asfortranarray(sal) if sal is not None else None) if lay == 'F' else sal)
     recs = []
     ls = None
     if case['fn'] == 'log_pdf' and ms is not None:
         yq = rng.normal(size=(*L, 5, D)) + (0 if real else 1j * rng.normal(size=(*L, 5, D)))
-        ls, el = call(ms.log_pdf, yq)
+        ls, el = call(ms.log_pdf, np.asfortranarray(yq) if lay == 'F' else yq)
     idxs = list(np.ndindex(*L))
     rng.shuffle(idxs)
     first = tuple(0 for _ in L)
     idxs = [first] + [i for i in idxs if i != first]
     for idx in idxs[:3]:
-        m1, e1 = call(fit, y[idx], None if sal is None else sal[idx])
+        m1, e1 = call(fit, np.ascontiguousarray(y[idx]), None if sal is None else np.ascontiguousarray(sal[idx]))
         key = f'stackd:{case["seed"]}:{idx}'
         if m1 is None:
             continue
         if ms is None:
             recs.append(ml.twin_record('slice', None, None, kind=dist, exc=es, exc_clause='stack_raises', fp=fp, key=key))
             continue
+        yp = ml.ulp_perturb(rng, np.ascontiguousarray(y[idx]))
+        m1p, _ = call(fit, yp, None if sal is None else np.ascontiguousarray(sal[idx]))
         if case['fn'] == 'fit':
+            raw = (ml.dist_arrays(ms), ml.dist_arrays(m1))
+            amp = None if m1p is None else ml.amp_of(raw[1], ml.dist_arrays(m1p))
             recs.append(ml.twin_record('slice', ml.dist_fields(ms), ml.dist_fields(m1), kind=dist,
-                                       lead=[int(i) for i in idx], fp=fp, key=key))
+                                       lead=[int(i) for i in idx], fp=fp, key=key, fine=-30 if amp is not None else 0, raw=raw, amp=amp))
         else:
             l1, e2 = call(m1.log_pdf, yq[idx])
             if l1 is None:
@@ -393,8 +451,11 @@ def _stack_dist(case):
             if ls is None:
                 recs.append(ml.twin_record('slice', None, None, kind=dist, exc=el, exc_clause='stack_raises', fp=fp, key=key))
                 continue
+            l1p, _ = (None, '') if m1p is None else call(m1p.log_pdf, yq[idx])
+            amp = None if l1p is None else ml.amp_of([l1], [l1p])
             recs.append(ml.twin_record('slice', [ml._field('log_likelihood', ls)], [ml._field('log_likelihood', l1)],
-                                       kind=dist, lead=[int(i) for i in idx], fp=fp, key=key))
+                                       kind=dist, lead=[int(i) for i in idx], fp=fp, key=key, fine=-30 if amp is not None else 0,
+                                       raw=([np.asarray(ls)], [np.asarray(l1)]), amp=amp))
     return recs
 
 
